@@ -616,6 +616,7 @@ type lineRun struct {
 	sumRaw   int
 	closed   bool // last chunk closes the line
 	timedOut bool // a gap inside the run (or after its unterminated end) makes a time-out certain
+	cut      bool // its output was observed to end inside a chunk (max_event_size with cut-off)
 }
 
 func k8sTag(src uint64, stream string, li int) string {
@@ -713,6 +714,15 @@ func judgeK8s(c *Case, res *execResult, o *vkit.Outcome) {
 			runs = append(runs, r)
 		}
 		oversize := func(r *lineRun) bool { return c.MaxEventSize > 0 && r.sumRaw >= c.MaxEventSize }
+		for i, r := range runs {
+			if c.CutOff && oversize(r) && r.hi > r.lo {
+				for _, later := range runs[i+1:] {
+					if later.hi > later.lo && !oversize(later) {
+						o.Class("k8s:line-in-chunks-after-a-line-over-the-limit")
+					}
+				}
+			}
+		}
 		noSplit := func(r *lineRun) bool { return 2*r.sumRaw+k8sLookahead <= c.SplitEventSize }
 		concat := func(a, b int) string {
 			var sb strings.Builder
@@ -824,6 +834,12 @@ func judgeK8s(c *Case, res *execResult, o *vkit.Outcome) {
 			}
 			if cut {
 				limited++
+				r.cut = true
+				for _, later := range runs[ch[a].run+1:] {
+					if later.hi > later.lo {
+						o.Class("k8s:line-in-chunks-after-a-line-that-was-cut")
+					}
+				}
 			}
 			// other fields: those of one chunk event of the covered line + k8s_node (+ the cut-off marker)
 			gc := g.node.Clone()
